@@ -84,8 +84,19 @@ func snap(root *ggql.Root) (s snapshot, pan interface{}) {
 		res := root.ResolveString(q, "", nil)
 		s.answers = append(s.answers, hx.Show(hx.Norm(res)))
 	}
+	// what a request's directive arguments look like once the request is read (they are coerced
+	// against the directive's definition then: defaults filled in, the time a time)
+	if exe, err := root.ParseExecutableString(c14ObsRequest); err != nil {
+		s.answers = append(s.answers, "error: "+err.Error())
+	} else {
+		s.answers = append(s.answers, exe.String())
+	}
 	return
 }
+
+// c14ObsSDL joins the first document of every history; c14ObsRequest uses what it defines.
+const c14ObsSDL = "directive @zqobs(in: ZqObsIn, at: Time, n: Float) on FIELD\ninput ZqObsIn { size: Int offset: Int = 0 tags: [String] = [\"t\"] }\n"
+const c14ObsRequest = `{__typename @zqobs(in: {size: 5}, at: "2020-01-02T03:04:05+02:00", n: 2)}`
 
 func (a snapshot) diff(b snapshot) string {
 	if a.sdl != b.sdl {
@@ -93,7 +104,11 @@ func (a snapshot) diff(b snapshot) string {
 	}
 	for i := range a.answers {
 		if a.answers[i] != b.answers[i] {
-			return fmt.Sprintf("response to %q differs:\n  before: %s\n  after:  %s", hx.Trunc(c14Requests[i], 50), hx.Trunc(a.answers[i], 1200), hx.Trunc(b.answers[i], 1200))
+			q := c14ObsRequest + " (as read by ParseExecutableString)"
+			if i < len(c14Requests) {
+				q = c14Requests[i]
+			}
+			return fmt.Sprintf("response to %q differs:\n  before: %s\n  after:  %s", hx.Trunc(q, 90), hx.Trunc(a.answers[i], 1200), hx.Trunc(b.answers[i], 1200))
 		}
 	}
 	return ""
@@ -299,6 +314,7 @@ func genCaseC14(t *rapid.T) *c14Case {
 	o := hx.SDLOpts{}
 	arr := Arrange(t, s, o, "arr", true, 4)
 	docs := arr.Texts()
+	docs[0] += c14ObsSDL
 	c := &c14Case{Quiet: rapid.IntRange(0, 2).Draw(t, "quiet") == 0}
 	next := 0
 	n := 0
